@@ -52,7 +52,7 @@ theorem fs_definitions_pinned :
     Generated.fs_classify = [((.atom "field._field_type == _FIELD_INITVAR"), "init_fields"),
       ((.and (.atom "field._field_type == _FIELD") (.not (.atom "field.init"))), "post_init_fields"),
       ((.atom "field.metadata.get(DEFAULT_AS_SET_METADATA)"), "post_init_fields")] ∧
-    Generated.fs_setattrSrc = "try:\n    self.__dict__[FIELDS_SET_ATTR].add(attr)\nexcept KeyError:\n    raise RuntimeError(dataclass_before_error) from None\nold_setattr(self, attr, value)" ∧
+    Generated.fs_setattrSrc = "try:\n    fields_set_ = self.__dict__[FIELDS_SET_ATTR]\nexcept KeyError:\n    raise RuntimeError(dataclass_before_error) from None\nold_setattr(self, attr, value)\nif attr != '__orig_class__':\n    fields_set_.add(attr)" ∧
     Generated.fs_setFieldsSrc = "if overwrite:\n    _fields_set(obj).clear()\n_fields_set(obj).update(map(get_field_name, fields))\nreturn obj" ∧
     Generated.fs_unsetFieldsSrc = "_fields_set(obj).difference_update(map(get_field_name, fields))\nreturn obj" ∧
     Generated.fs_fieldsSetSrc = "return _fields_set(obj)" := by
